@@ -863,6 +863,17 @@ def run(case, ctx):
                                                             'float64'}:
                 out.label('unspecified:float32-vs-float64-data')
                 return out
+    # rows compared position by position after a shuffle without a sort can
+    # pair floats that differ by an amount inside the rounding grey zone of
+    # the requested precision (0.25 vs 0.5 at precision 0 both round to 0):
+    # whether such a pair is "equal after rounding" is left unspecified
+    pz = 6 if o['precision'] is None else o['precision']
+    for (a_, b_) in float_pairs(case):
+        d_ = abs(a_ - b_)
+        if d_ != 0 and not (d_ <= 10.0 ** -(pz + 1.5)
+                            or d_ >= 2.5 * 10.0 ** -pz):
+            out.label('unspecified:rounding-grey-zone')
+            return out
     kinds = sorted(set(r[0] for r in reasons))
     edit = case['edit'].get('edit', '?')
     out.label('entry:' + entry.split(':')[0], 'edit:' + edit,
